@@ -49,7 +49,7 @@ def lean_type(t) -> str:
             return f"List (String × {lean_type_atom(t[1])})"
     return {"int": "Int", "nat": "Nat", "bool": "Bool", "dir": "Dir", "mode": "Mode", "agent": "Agent", "num": "Num", "R": "R", "rho": "ρ",
             "coords": "List Coord", "es": "ES R", "unit": "Unit", "gen": "List Agent", "cfg": "StopCfg R", "book": "Book R",
-            "A": "α", "str": "String", "task": "τ", "self": "Self R σ τ", "objval": "ObjVal", "raws": "List Raw", "tasksem": "TaskSem", "vd": "VarDecl", "var": "Var", "vdget": "VarGet", "raw": "Raw", "coord": "Coord", "bentry": "BEntry", "decoded": "TaskDecl.Decoded", "darg": "TaskDecl.DArg", "mmode": "Multi.Mode", "mobj": "Multi.Obj", "mcell": "Multi.RunDict ρ", "poolsize": "Unit"}[t]
+            "A": "α", "str": "String", "task": "τ", "self": "Self R σ τ", "objval": "ObjVal", "raws": "List Raw", "tasksem": "TaskSem", "vd": "VarDecl", "var": "Var", "vdget": "VarGet", "raw": "Raw", "coord": "Coord", "bentry": "BEntry", "decoded": "TaskDecl.Decoded", "darg": "TaskDecl.DArg", "mmode": "Multi.Mode", "mobj": "Multi.Obj", "mcell": "Multi.RunDict ρ", "poolsize": "Unit", "poolkind": "Py.PoolKind"}[t]
 
 
 def lean_type_atom(t) -> str:
@@ -231,6 +231,7 @@ SPEC = [
          selfr={"choices": ("choices", L(L("A")))}, children=("discmulti_children", "choices")),
     dict(name="binary_correct", src=("models.py", "BinaryVariable.correct"), params={"value": L("raw")}, ret=L("coord"), uses_dispatch=True,
          selfr={"n_vars": ("n_vars", "int")}, children=("binary_children", "n_vars")),
+    dict(name="get_pool_executor", src=("helpers.py", "get_pool_executor"), params={"mode": "mode", "n_workers": O("int")}, ret="poolkind"),
     dict(name="calculate_fitness", src=("helpers.py", "calculate_fitness"), params={"value": "num", "task_type": "dir"}, ret="num", float_ops=True),
     dict(name="task_init", src=("models.py", "Task.__init__"), kwargs={"variables": L("vd"), "space_dimension": "int"}, params={}, ret=T(L("vd"), "int"),
          ret_fields=["variables", "space_dimension"], uses_dispatch=True, after_init_ok=["self._EPS = np.finfo(float).eps"]),
@@ -1175,6 +1176,11 @@ class Fn:
                     if ctx != ["id_trial"] or "id_trial" not in env:
                         self.err(n, "optimize() outside the per-trial worker function")
                     return f"(optimize {atom(rt)} {atom(tt)} {atom(mt)} {atom(wt)} id_trial)", "rho"
+            if ast.unparse(f) in ("parallel.ThreadPoolExecutor", "parallel.ProcessPoolExecutor") and len(n.args) == 1 and not n.keywords and self.spec.get("ret") == "poolkind":
+                t, ty = self.E(n.args[0], env)
+                if ty != O("int"):
+                    self.err(n, f"pool of {ty} workers")
+                return f"(Py.PoolKind.{'thread' if 'Thread' in ast.unparse(f) else 'process'} {atom(t)})", "poolkind"
             if ast.unparse(f) == "chain.from_iterable" and len(n.args) == 1 and not n.keywords:
                 t, ty = self.E(n.args[0], env)
                 if isinstance(ty, tuple) and ty[0] == "list" and isinstance(ty[1], tuple) and ty[1][0] == "list":
